@@ -23,7 +23,7 @@ structure ElemQ (F : Type) where
     follows.  `f` is what the reader does to the stream's `skipws` flag (`SDAI_String::STEPread` leaves it switched off).
     The layout in front of the token is the loop's business (`ElemReads.full`). -/
 def ElemReads (env : Env F) (ty : ElemTy) (f : Bool → Bool) (e : ElemQ F) : Prop :=
-  Seps e.before ∧ (∃ c u, e.tok = c :: u ∧ isSpace c = false ∧ c ≠ 47 ∧ c ≠ 41 ∧ c ≠ 44) ∧
+  Seps e.before ∧ (∃ c u, e.tok = c :: u ∧ isSpace c = false ∧ c ≠ 47 ∧ c ≠ 41 ∧ c ≠ 44 ∧ c ≠ 92) ∧
   ∀ (l : List Byte) (sk : Bool) (d : Byte) (rest : List Byte), (d = 44 ∨ d = 41) →
     elemRead env ty (G l (e.tok ++ (e.after ++ d :: rest)) sk) =
       .ok (.null, e.val, G (e.after.reverse ++ (e.tok.reverse ++ l)) (d :: rest) (f sk))
@@ -40,14 +40,14 @@ theorem ElemReads.full {env : Env F} {ty : ElemTy} {f : Bool → Bool} {e : Elem
     (hagg : env.cfg.aggrSkipsComments = true) (l : List Byte) (sk : Bool) (d : Byte) (rest : List Byte) (hd : d = 44 ∨ d = 41) :
     elemRead env ty (G l (e.before ++ (e.tok ++ (e.after ++ d :: rest))) sk) =
       .ok (.null, e.val, G (e.after.reverse ++ (e.tok.reverse ++ (e.before.reverse ++ l))) (d :: rest) (f sk)) := by
-  obtain ⟨hb, ⟨c0, u0, hcu, hcs, h47, _, _⟩, hread⟩ := h
+  obtain ⟨hb, ⟨c0, u0, hcu, hcs, h47, _, _, h92⟩, hread⟩ := h
   have hsk : readTokenSeparator (G l (e.before ++ (e.tok ++ (e.after ++ d :: rest))) sk) =
       G (e.before.reverse ++ l) (e.tok ++ (e.after ++ d :: rest)) sk := by
-    rw [hcu]; exact readTokenSeparator_seps e.before hb l c0 _ sk hcs h47
+    rw [hcu]; exact readTokenSeparator_seps e.before hb l c0 _ sk hcs h47 h92
   have hsk0 : readTokenSeparator (G (e.before.reverse ++ l) (e.tok ++ (e.after ++ d :: rest)) sk) =
       G (e.before.reverse ++ l) (e.tok ++ (e.after ++ d :: rest)) sk := by
     rw [hcu]
-    have := readTokenSeparator_seps [] (Seps.blanks [] (by simp)) (e.before.reverse ++ l) c0 (u0 ++ (e.after ++ d :: rest)) sk hcs h47
+    have := readTokenSeparator_seps [] (Seps.blanks [] (by simp)) (e.before.reverse ++ l) c0 (u0 ++ (e.after ++ d :: rest)) sk hcs h47 h92
     simpa using this
   rw [elemRead_skip env hagg ty _ (by rw [hsk, hsk0]), hsk, hread _ sk d rest hd]
 
@@ -145,12 +145,12 @@ theorem aggrRead_elems (env : Env F) (hagg : env.cfg.aggrSkipsComments = true) (
   cases es with
   | nil => exact absurd rfl hne
   | cons e fs =>
-    obtain ⟨hb, ⟨c0, u0, hcu, hcs, h47, h41, h44⟩, hread⟩ := hok e (by simp)
+    obtain ⟨hb, ⟨c0, u0, hcu, hcs, h47, h41, h44, h92⟩, hread⟩ := hok e (by simp)
     let e' : ElemQ F := { e with before := [] }
     have hok' : ∀ x ∈ e' :: fs, ElemReads env ty f x := by
       intro x hx
       rcases List.mem_cons.mp hx with rfl | hx
-      · exact ⟨Seps.blanks [] (by simp), ⟨c0, u0, hcu, hcs, h47, h41, h44⟩, hread⟩
+      · exact ⟨Seps.blanks [] (by simp), ⟨c0, u0, hcu, hcs, h47, h41, h44, h92⟩, hread⟩
       · exact hok x (by simp [hx])
     have htokne : ∀ x ∈ e' :: fs, x.tok ≠ [] := by
       intro x hx
@@ -175,7 +175,7 @@ theorem aggrRead_elems (env : Env F) (hagg : env.cfg.aggrSkipsComments = true) (
     simp only [hagg, if_true]
     have e1 : renderQ (e :: fs) ++ rest = e.before ++ c0 :: u1 := by
       rw [renderQ_cons, List.append_assoc, h1]
-    rw [e1, readTokenSeparator_seps e.before hb (40 :: l) c0 u1 sk hcs h47]
+    rw [e1, readTokenSeparator_seps e.before hb (40 :: l) c0 u1 sk hcs h47 h92]
     rw [show (G (e.before.reverse ++ 40 :: l) (c0 :: u1) sk).peekC = (c0, G (e.before.reverse ++ 40 :: l) (c0 :: u1) sk)
       from peekC_good _ c0 u1 sk]
     have x3 : (c0 == 41) = false := by simpa using h41
@@ -211,10 +211,10 @@ theorem aggrRead_none (env : Env F) (hagg : env.cfg.aggrSkipsComments = true) (t
 
 /-! ### the element readers of the simple kinds on the tokens of their grammars -/
 
-/-- a token separator skip in front of a character that is neither blank nor `/` does nothing -/
-theorem rts_none (l : List Byte) (c : Byte) (u : List Byte) (sk : Bool) (hc : isSpace c = false) (h47 : c ≠ 47) :
+/-- a token separator skip in front of a character that is neither blank, `/` nor `\\` (a print control directive) does nothing -/
+theorem rts_none (l : List Byte) (c : Byte) (u : List Byte) (sk : Bool) (hc : isSpace c = false) (h47 : c ≠ 47) (h92 : c ≠ 92) :
     readTokenSeparator (G l (c :: u) sk) = G l (c :: u) sk := by
-  have := readTokenSeparator_seps [] (Seps.blanks [] (by simp)) l c u sk hc h47
+  have := readTokenSeparator_seps [] (Seps.blanks [] (by simp)) l c u sk hc h47 h92
   simpa using this
 
 /-- in front of a character that is no delimiter the "missing element" test of the repaired loop says no (and without the
@@ -231,13 +231,13 @@ theorem elemMissing_none (cfg : RWCfg) (l : List Byte) (c : Byte) (u : List Byte
     the node's reader, then the loop's `CheckRemainingInput` (NUMBER: when its elements are read by `ReadReal`) -/
 theorem elemRead_scalar (env : Env F) (hagg : env.cfg.aggrSkipsComments = true) (ty : ElemTy) (hk : ty.kind?.isSome = true)
     (hnum : ty = .number → env.cfg.numberElemReadsNumber = false)
-    (l : List Byte) (c : Byte) (u : List Byte) (sk : Bool) (hc : isSpace c = false) (h47 : c ≠ 47) (h44 : c ≠ 44) (h41 : c ≠ 41)
+    (l : List Byte) (c : Byte) (u : List Byte) (sk : Bool) (hc : isSpace c = false) (h47 : c ≠ 47) (h44 : c ≠ 44) (h41 : c ≠ 41) (h92 : c ≠ 92)
     (s1 : IStream) (e : Sev) (a : Atom F)
     (hsc : scalarNodeRead env ty (G l (c :: u) sk) = .ok (e, a, s1)) :
     elemRead env ty (G l (c :: u) sk) =
       .ok ((checkRemainingInput env.lex (some attrDelims) s1 e).2, .atom a, (checkRemainingInput env.lex (some attrDelims) s1 e).1) := by
   unfold elemRead
-  simp only [hagg, if_true, rts_none l c u sk hc h47,
+  simp only [hagg, if_true, rts_none l c u sk hc h47 h92,
     elemMissing_none env.cfg l c u sk h44 h41, bind, Except.bind]
   unfold elemReadCore
   cases ty with
@@ -248,7 +248,7 @@ theorem elemRead_scalar (env : Env F) (hagg : env.cfg.aggrSkipsComments = true) 
 
 /-- NUMBER elements when the repaired `RealAggregate::ReadValue` reads them with `ReadNumber` -/
 theorem elemRead_number (env : Env F) (hagg : env.cfg.aggrSkipsComments = true) (hnum : env.cfg.numberElemReadsNumber = true)
-    (l : List Byte) (c : Byte) (u : List Byte) (sk : Bool) (hc : isSpace c = false) (h47 : c ≠ 47) (h44 : c ≠ 44) (h41 : c ≠ 41) :
+    (l : List Byte) (c : Byte) (u : List Byte) (sk : Bool) (hc : isSpace c = false) (h47 : c ≠ 47) (h44 : c ≠ 44) (h41 : c ≠ 41) (h92 : c ≠ 92) :
     elemRead env .number (G l (c :: u) sk) =
       .ok ((checkRemainingInput env.lex (some attrDelims) (readNumber env.ops env.lex (some attrDelims) (G l (c :: u) sk) .null).2.1
               (readNumber env.ops env.lex (some attrDelims) (G l (c :: u) sk) .null).2.2).2,
@@ -256,7 +256,7 @@ theorem elemRead_number (env : Env F) (hagg : env.cfg.aggrSkipsComments = true) 
            (checkRemainingInput env.lex (some attrDelims) (readNumber env.ops env.lex (some attrDelims) (G l (c :: u) sk) .null).2.1
               (readNumber env.ops env.lex (some attrDelims) (G l (c :: u) sk) .null).2.2).1) := by
   unfold elemRead
-  simp only [hagg, if_true, rts_none l c u sk hc h47,
+  simp only [hagg, if_true, rts_none l c u sk hc h47 h92,
     elemMissing_none env.cfg l c u sk h44 h41, bind, Except.bind]
   unfold elemReadCore
   simp [hnum, pure, Except.pure]
@@ -273,9 +273,9 @@ theorem ElemReads.integer (env : Env F) (hcfg : env.lex.criSkipsComments = true)
     (tok before after : List Byte) (htok : isInteger tok = true) (hlo : longMin ≤ denoteInteger tok)
     (hhi : denoteInteger tok < longMax) (hb : Seps before) (ha : Seps after) :
     ElemReads env .integer id ⟨tok, before, after, .atom (.int (denoteInteger tok))⟩ := by
-  obtain ⟨c, u, hcu, hcs, h47, h41⟩ := isInteger_head47 tok htok
+  obtain ⟨c, u, hcu, hcs, h47, h41, h92⟩ := isInteger_head47 tok htok
   have h44 : c ≠ 44 := by obtain ⟨c', u', h', _, _, h44', _⟩ := isInteger_head tok htok; rw [hcu] at h'; cases h'; exact h44'
-  refine ⟨hb, ⟨c, u, hcu, hcs, h47, h41, h44⟩, ?_⟩
+  refine ⟨hb, ⟨c, u, hcu, hcs, h47, h41, h44, h92⟩, ?_⟩
   intro l sk d rest hd
   have h3 : (denoteInteger tok == longMax) = false := by simp; omega
   have hsc : scalarNodeRead env .integer (G l (c :: (u ++ (after ++ d :: rest))) sk) =
@@ -286,7 +286,7 @@ theorem ElemReads.integer (env : Env F) (hcfg : env.lex.criSkipsComments = true)
     simp only [List.cons_append] at this
     rw [this, hcu]
   simp only [hcu, List.cons_append]
-  rw [elemRead_scalar env hagg .integer rfl (by intro h; cases h) l c _ sk hcs h47 h44 h41 _ _ _ hsc]
+  rw [elemRead_scalar env hagg .integer rfl (by intro h; cases h) l c _ sk hcs h47 h44 h41 h92 _ _ _ hsc]
   simp only [cri_at_delim env.lex hcfg _ rest d sk hd]
   simp [intValue, ← hcu, h3, valueToAtom]
 
@@ -298,12 +298,12 @@ theorem ElemReads.real (env : Env F) (hcfg : env.lex.criSkipsComments = true) (h
     (hv : env.ops.ofDecimal dec = some v) (hnn : env.ops.isRealNull v = false)
     (hbuf : env.lex.realBuf = 0 ∨ tok.length < env.lex.realBuf) (hb : Seps before) (ha : Seps after) :
     ElemReads env ty id ⟨tok, before, after, .atom (.real v)⟩ := by
-  obtain ⟨c, u, hcu, hcs, h47⟩ := isReal_head tok htok
+  obtain ⟨c, u, hcu, hcs, h47, h92⟩ := isReal_head tok htok
   have h41 : c ≠ 41 := by
     intro h; subst h; rw [hcu] at htok; revert htok; simp [isReal, splitSign, takeDigits, isDigit]
   have h44 : c ≠ 44 := by
     intro h; subst h; rw [hcu] at htok; revert htok; simp [isReal, splitSign, takeDigits, isDigit]
-  refine ⟨hb, ⟨c, u, hcu, hcs, h47, h41, h44⟩, ?_⟩
+  refine ⟨hb, ⟨c, u, hcu, hcs, h47, h41, h44, h92⟩, ?_⟩
   intro l sk d rest hd
   have hsc : scalarNodeRead env ty (G l (c :: (u ++ (after ++ d :: rest))) sk) =
       .ok (.null, valueToAtom (realValue env.ops (some v)), G (after.reverse ++ (tok.reverse ++ l)) (d :: rest) sk) := by
@@ -316,7 +316,7 @@ theorem ElemReads.real (env : Env F) (hcfg : env.lex.criSkipsComments = true) (h
   simp only [hcu, List.cons_append]
   rw [elemRead_scalar env hagg ty (by rcases hty with rfl | ⟨rfl, _⟩ <;> rfl)
     (by intro h; rcases hty with rfl | ⟨_, h2⟩; · cases h
-        · exact h2) l c _ sk hcs h47 h44 h41 _ _ _ hsc]
+        · exact h2) l c _ sk hcs h47 h44 h41 h92 _ _ _ hsc]
   simp only [cri_at_delim env.lex hcfg _ rest d sk hd]
   simp [realValue, hnn, valueToAtom, hcu]
 
@@ -367,7 +367,7 @@ theorem readNumber_tok (ops : FloatOps F) (lex : LexCfg) (hcfg : lex.criSkipsCom
       simpa using this
   obtain ⟨c, u, hcu, hcs⟩ : ∃ c u, tok = c :: u ∧ isSpace c = false := by
     rcases htok with hr | hi
-    · obtain ⟨c, u, h, hc, _⟩ := isReal_head tok hr; exact ⟨c, u, h, hc⟩
+    · obtain ⟨c, u, h, hc, _, _⟩ := isReal_head tok hr; exact ⟨c, u, h, hc⟩
     · obtain ⟨c, u, h, hc, _⟩ := isInteger_head tok hi; exact ⟨c, u, h, hc⟩
   obtain ⟨hwf, _, hscan⟩ := numSplit_spec l (tok ++ (seps ++ d :: rest))
   rw [hf1] at hwf hscan
@@ -396,22 +396,22 @@ theorem ElemReads.number (env : Env F) (hcfg : env.lex.criSkipsComments = true) 
     (hden : denoteReal tok = some dec) (hv : env.ops.ofDecimal dec = some v) (hnn : env.ops.isRealNull v = false)
     (hb : Seps before) (ha : Seps after) :
     ElemReads env .number id ⟨tok, before, after, .atom (.real v)⟩ := by
-  obtain ⟨c, u, hcu, hcs, h47, h41, h44⟩ : ∃ c u, tok = c :: u ∧ isSpace c = false ∧ c ≠ 47 ∧ c ≠ 41 ∧ c ≠ 44 := by
+  obtain ⟨c, u, hcu, hcs, h47, h41, h44, h92⟩ : ∃ c u, tok = c :: u ∧ isSpace c = false ∧ c ≠ 47 ∧ c ≠ 41 ∧ c ≠ 44 ∧ c ≠ 92 := by
     rcases htok with hr | hi
-    · obtain ⟨c, u, hcu, hcs, h47⟩ := isReal_head tok hr
-      refine ⟨c, u, hcu, hcs, h47, ?_, ?_⟩ <;>
+    · obtain ⟨c, u, hcu, hcs, h47, h92⟩ := isReal_head tok hr
+      refine ⟨c, u, hcu, hcs, h47, ?_, ?_, h92⟩ <;>
       · intro h; subst h; rw [hcu] at hr; revert hr; simp [isReal, splitSign, takeDigits, isDigit]
-    · obtain ⟨c, u, hcu, hcs, h47, h41⟩ := isInteger_head47 tok hi
+    · obtain ⟨c, u, hcu, hcs, h47, h41, h92⟩ := isInteger_head47 tok hi
       obtain ⟨c', u', h', _, _, h44', _⟩ := isInteger_head tok hi
       rw [hcu] at h'; cases h'
-      exact ⟨c, u, hcu, hcs, h47, h41, h44'⟩
-  refine ⟨hb, ⟨c, u, hcu, hcs, h47, h41, h44⟩, ?_⟩
+      exact ⟨c, u, hcu, hcs, h47, h41, h44', h92⟩
+  refine ⟨hb, ⟨c, u, hcu, hcs, h47, h41, h44, h92⟩, ?_⟩
   intro l sk d rest hd
   have hrd := readNumber_tok env.ops env.lex hcfg tok dec v htok hden hv l sk after ha d rest hd
   rw [hcu] at hrd
   simp only [List.cons_append] at hrd
   simp only [hcu, List.cons_append]
-  rw [elemRead_number env hagg hnum l c _ sk hcs h47 h44 h41, hrd]
+  rw [elemRead_number env hagg hnum l c _ sk hcs h47 h44 h41 h92, hrd]
   simp only [cri_at_delim env.lex hcfg _ rest d sk hd]
   simp [realValue, hnn, valueToAtom, hcu]
 
@@ -420,13 +420,13 @@ theorem ElemReads.number (env : Env F) (hcfg : env.lex.criSkipsComments = true) 
 theorem ElemReads.string (env : Env F) (hcfg : env.lex.criSkipsComments = true) (hagg : env.cfg.aggrSkipsComments = true)
     (b before after : List Byte) (hbody : StringBody b) (hb : Seps before) (ha : Seps after) :
     ElemReads env .string (fun _ => false) ⟨39 :: (b ++ [39]), before, after, .atom (.str (39 :: (b ++ [39])))⟩ := by
-  refine ⟨hb, ⟨39, b ++ [39], rfl, by decide, by decide, by decide, by decide⟩, ?_⟩
+  refine ⟨hb, ⟨39, b ++ [39], rfl, by decide, by decide, by decide, by decide, by decide⟩, ?_⟩
   intro l sk d rest hd
   obtain ⟨c, u, hcu, hc39⟩ := seps_head_not_apos after ha d rest hd
   have hshape : (39 :: (b ++ [39])) ++ (after ++ d :: rest) = 39 :: (b ++ 39 :: c :: u) := by rw [← hcu]; simp
   simp only
   rw [hshape]
-  rw [elemRead_scalar env hagg .string rfl (by intro h; cases h) l 39 _ sk (by decide) (by decide) (by decide) (by decide) _ _ _
+  rw [elemRead_scalar env hagg .string rfl (by intro h; cases h) l 39 _ sk (by decide) (by decide) (by decide) (by decide) (by decide) _ _ _
     (by rw [scalarNodeRead_string, stringRead_tok b hbody l sk c u hc39])]
   have hcri := cri_seps env.lex hcfg after ha (39 :: (b.reverse ++ 39 :: l)) rest d false false .null hd
   rw [← hcu, hcri]
@@ -436,12 +436,12 @@ theorem ElemReads.string (env : Env F) (hcfg : env.lex.criSkipsComments = true) 
 theorem ElemReads.binary (env : Env F) (hcfg : env.lex.criSkipsComments = true) (hagg : env.cfg.aggrSkipsComments = true)
     (hex before after : List Byte) (hne : hex ≠ []) (hhex : hex.all isXDigit = true) (hb : Seps before) (ha : Seps after) :
     ElemReads env .binary id ⟨34 :: (hex ++ [34]), before, after, .atom (.bin hex)⟩ := by
-  refine ⟨hb, ⟨34, hex ++ [34], rfl, by decide, by decide, by decide, by decide⟩, ?_⟩
+  refine ⟨hb, ⟨34, hex ++ [34], rfl, by decide, by decide, by decide, by decide, by decide⟩, ?_⟩
   intro l sk d rest hd
   have hshape : (34 :: (hex ++ [34])) ++ (after ++ d :: rest) = 34 :: (hex ++ 34 :: (after ++ d :: rest)) := by simp
   simp only
   rw [hshape]
-  rw [elemRead_scalar env hagg .binary rfl (by intro h; cases h) l 34 _ sk (by decide) (by decide) (by decide) (by decide) _ _ _
+  rw [elemRead_scalar env hagg .binary rfl (by intro h; cases h) l 34 _ sk (by decide) (by decide) (by decide) (by decide) (by decide) _ _ _
     (by rw [scalarNodeRead_binary, readBinary_tok env.lex hex hne hhex l sk (after ++ d :: rest)])]
   have hcri := cri_seps env.lex hcfg after ha (34 :: (hex.reverse ++ 34 :: l)) rest d false sk .null hd
   have hemp : hex.isEmpty = false := by cases hex <;> simp_all
@@ -454,7 +454,7 @@ theorem ElemReads.enum (env : Env F) (hcfg : env.lex.criSkipsComments = true) (h
     (hne : name ≠ []) (hname : name.all pw = true) (hfind : findName (enumKindOf ty).table (name.map toUpper) = some i)
     (hset : (enumKindOf ty).isUnsetIdx i = false) (hb : Seps before) (ha : Seps after) :
     ElemReads env ty id ⟨46 :: (name ++ [46]), before, after, .atom (.enum i)⟩ := by
-  refine ⟨hb, ⟨46, name ++ [46], rfl, by decide, by decide, by decide, by decide⟩, ?_⟩
+  refine ⟨hb, ⟨46, name ++ [46], rfl, by decide, by decide, by decide, by decide, by decide⟩, ?_⟩
   intro l sk d rest hd
   have hshape : (46 :: (name ++ [46])) ++ (after ++ d :: rest) = 46 :: (name ++ 46 :: (after ++ d :: rest)) := by simp
   simp only
@@ -466,7 +466,7 @@ theorem ElemReads.enum (env : Env F) (hcfg : env.lex.criSkipsComments = true) (h
       simp only [enumKindOf] at hfind hset ⊢
       simp only [enumRead_tok env.lex _ false name i hne hname hfind hset l sk (after ++ d :: rest), pure, Except.pure]
   rw [elemRead_scalar env hagg ty (by rcases het with rfl | rfl | ⟨items, rfl⟩ <;> rfl)
-    (by intro h; rcases het with rfl | rfl | ⟨items, rfl⟩ <;> cases h) l 46 _ sk (by decide) (by decide) (by decide) (by decide) _ _ _ hsc]
+    (by intro h; rcases het with rfl | rfl | ⟨items, rfl⟩ <;> cases h) l 46 _ sk (by decide) (by decide) (by decide) (by decide) (by decide) _ _ _ hsc]
   have hcri := cri_seps env.lex hcfg after ha (46 :: (name.reverse ++ 46 :: l)) rest d false sk .null hd
   simp only [hcri]
   simp [enumValue, hset, valueToAtom]
@@ -522,12 +522,12 @@ theorem ElemReads.entity (env : Env F) (hcfg : env.lex.criSkipsComments = true) 
     (hhi : ((digitsVal ds 0 : Nat) : Int) ≤ intMax)
     (hfound : refLookup env.lookup tg ((digitsVal ds 0 : Nat) : Int) = .found) (hb : Seps before) (ha : Seps after) :
     ElemReads env (.entity tg) id ⟨35 :: ds, before, after, .atom (.ref ((digitsVal ds 0 : Nat) : Int))⟩ := by
-  refine ⟨hb, ⟨35, ds, rfl, by decide, by decide, by decide, by decide⟩, ?_⟩
+  refine ⟨hb, ⟨35, ds, rfl, by decide, by decide, by decide, by decide, by decide⟩, ?_⟩
   intro l sk d rest hd
   have hshape : (35 :: ds) ++ (after ++ d :: rest) = 35 :: (ds ++ (after ++ d :: rest)) := by simp
   simp only
   rw [hshape]
-  rw [elemRead_scalar env hagg (.entity tg) rfl (by intro h; cases h) l 35 _ sk (by decide) (by decide) (by decide) (by decide) _ _ _
+  rw [elemRead_scalar env hagg (.entity tg) rfl (by intro h; cases h) l 35 _ sk (by decide) (by decide) (by decide) (by decide) (by decide) _ _ _
     (by rw [scalarNodeRead_entity, readEntityRef_tok env.lex hcfg _ ds hne hds hhi hfound l sk after ha d rest hd])]
   simp only [cri_at_delim env.lex hcfg _ rest d sk hd]
   simp
